@@ -7,6 +7,12 @@
 // interleaving of producer, consumer, stopper and the queue's worker goroutine
 // -- including every choice among simultaneously ready select cases -- is
 // executed against that code, with state hashing, to fixpoint.
+//
+// A second, deterministic family (deep.go) runs every burst size up to a few
+// hundred items -- consumer stalled while the burst is pushed, then drained --
+// once each under the canonical non-preempting schedule: exhaustive over the
+// burst size, not over interleavings, and reported separately
+// (deep_backlog_* counters).
 package c18
 
 import (
@@ -379,7 +385,7 @@ func runShard(sc scen, deadlineS int) *shardResult {
 	cfg := vsched.Config{
 		Deadline:  start.Add(time.Duration(deadlineS) * time.Second),
 		MaxFailed: 2000,
-		Setup: func(s *vsched.Sched) vsched.Harness { return setupScen(sh, sc, s) },
+		Setup:     func(s *vsched.Sched) vsched.Harness { return setupScen(sh, sc, s) },
 	}
 	r := vsched.Explore(cfg)
 	out := &shardResult{Scen: sc, States: r.States, Transitions: r.Transitions, Steps: r.Steps, Executions: r.Executions,
@@ -452,6 +458,10 @@ func Run(args []string) {
 		shardMain(args[1:])
 		return
 	}
+	if len(args) > 0 && args[0] == "deepshard" {
+		deepShardMain(args[1:])
+		return
+	}
 	run := ev.NewRun("C18", "model_checking", args)
 	maxB, maxN, deadlineS := 3, 5, 30
 	if run.Thorough() {
@@ -474,10 +484,10 @@ func Run(args []string) {
 	for n := 1; n <= maxN; n++ {
 		for b := 0; b <= maxB; b++ {
 			for _, k := range []string{"a", "b", "c"} {
-				scens = append(scens, scen{"queue", k, b, n, n})
+				scens = append(scens, scen{Comp: "queue", Kind: k, B: b, N: n, K: n})
 			}
 			for k := 0; k < n; k++ {
-				scens = append(scens, scen{"queue", "d", b, n, k})
+				scens = append(scens, scen{Comp: "queue", Kind: "d", B: b, N: n, K: k})
 			}
 		}
 	}
@@ -507,24 +517,51 @@ func Run(args []string) {
 		for n := 1; n <= hMax; n++ {
 			small := n <= hSmall
 			if small || in(longA, n) {
-				scens = append(scens, scen{comp, "a", 0, n, n})
+				scens = append(scens, scen{Comp: comp, Kind: "a", B: 0, N: n, K: n})
 			}
-			scens = append(scens, scen{comp, "b", 0, n, n})
+			scens = append(scens, scen{Comp: comp, Kind: "b", B: 0, N: n, K: n})
 			if small || in(longC, n) {
-				scens = append(scens, scen{comp, "c", 0, n, n})
+				scens = append(scens, scen{Comp: comp, Kind: "c", B: 0, N: n, K: n})
 			}
 			if small {
-				scens = append(scens, scen{comp, "r", 0, n, n})
+				scens = append(scens, scen{Comp: comp, Kind: "r", B: 0, N: n, K: n})
 				for k := 0; k < n; k++ {
-					scens = append(scens, scen{comp, "d", 0, n, k})
+					scens = append(scens, scen{Comp: comp, Kind: "d", B: 0, N: n, K: k})
 				}
 			} else if in(longD, n) {
-				scens = append(scens, scen{comp, "d", 0, n, 0}, scen{comp, "d", 0, n, n / 2})
+				scens = append(scens, scen{Comp: comp, Kind: "d", B: 0, N: n, K: 0}, scen{Comp: comp, Kind: "d", B: 0, N: n, K: n / 2})
 			}
 		}
 	}
+	// Deep backlog family (deep.go): every burst 1..deepMax, one canonical
+	// execution per (component, burst, split); bursts are dealt round-robin
+	// to deepStride processes per component.
+	deepMax, deepStride := 300, 8
+	deepBufs := []int{0, 1, 20}
+	if run.Thorough() {
+		deepMax, deepStride = 1200, 16
+	}
+	if n, err := strconv.Atoi(os.Getenv("C18_DEEPMAX")); err == nil && n >= 0 {
+		deepMax = n
+	}
+	type deepJob struct {
+		g     deepGroup
+		first int
+	}
+	var deepJobs []deepJob
+	var deepGroups []deepGroup
+	for _, b := range deepBufs {
+		deepGroups = append(deepGroups, deepGroup{"queue", b})
+	}
+	deepGroups = append(deepGroups, deepGroup{"neutrino", 0}, deepGroup{"btcd", 0})
+	for _, g := range deepGroups {
+		for f := 1; f <= deepStride && f <= deepMax; f++ {
+			deepJobs = append(deepJobs, deepJob{g, f})
+		}
+	}
+	deepResults := make([]*deepResult, len(deepJobs))
 	results := make([]*shardResult, len(scens))
-	errs := make([]string, len(scens))
+	errs := make([]string, len(scens)+len(deepJobs))
 	var wg sync.WaitGroup
 	// most expensive scenarios first on the pool (estimated: re-execution
 	// makes the cost cubic in the burst); results are consumed in list order
@@ -551,7 +588,11 @@ func Run(args []string) {
 		orderIdx[i] = i
 	}
 	sort.SliceStable(orderIdx, func(a, b int) bool { return weight(scens[orderIdx[a]]) > weight(scens[orderIdx[b]]) })
-	idx := make(chan int, len(scens))
+	// the deep shards are the longest single jobs: they go first
+	idx := make(chan int, len(scens)+len(deepJobs))
+	for j := range deepJobs {
+		idx <- len(scens) + j
+	}
 	for _, i := range orderIdx {
 		idx <- i
 	}
@@ -569,6 +610,28 @@ func Run(args []string) {
 			for i := range idx {
 				if ctx.Err() != nil {
 					return // a shard reported a harness error: stop
+				}
+				if i >= len(scens) {
+					j := deepJobs[i-len(scens)]
+					cmd := exec.CommandContext(ctx, "/proc/self/exe", "deepshard", j.g.comp, strconv.Itoa(j.g.b), strconv.Itoa(j.first), strconv.Itoa(deepStride), strconv.Itoa(deepMax), strconv.Itoa(deadlineS))
+					var stderr strings.Builder
+					cmd.Stderr = &stderr
+					out, err := cmd.Output()
+					if err != nil {
+						if ctx.Err() == nil {
+							errs[i] = fmt.Sprintf("deep shard %s first=%d: %v: %s", j.g.name(), j.first, err, strings.TrimSpace(stderr.String()))
+						}
+						cancel()
+						return
+					}
+					var r deepResult
+					if err := json.Unmarshal(out, &r); err != nil {
+						errs[i] = fmt.Sprintf("deep shard %s first=%d: bad output: %v", j.g.name(), j.first, err)
+						cancel()
+						return
+					}
+					deepResults[i-len(scens)] = &r
+					continue
 				}
 				sc := scens[i]
 				cmd := exec.CommandContext(ctx, "/proc/self/exe", "shard", sc.Comp, sc.Kind, strconv.Itoa(sc.B), strconv.Itoa(sc.N), strconv.Itoa(sc.K), strconv.Itoa(deadlineS))
@@ -708,6 +771,37 @@ func Run(args []string) {
 			}
 		}
 	}
+	// deep backlog family: reported after the exploration (its witnesses are
+	// the longer ones), smallest burst first
+	for _, r := range deepResults {
+		if r == nil {
+			ev.Fatal("a deep backlog shard reported nothing")
+		}
+	}
+	deepTot, deepPer, deepViols := mergeDeep(deepResults)
+	for _, v := range deepViols {
+		for i := 0; i < v.Count; i++ {
+			run.Violation(v.Sig, v.Msg, v.Replay)
+		}
+	}
+	deepBursts, deepContig := contiguous(deepTot.Bursts)
+	if deepMax > 0 && (deepTot.Executions == 0 || deepBursts != deepMax || !deepContig || len(deepPer) != len(deepGroups)) {
+		ev.Fatal("deep backlog family: executed %d scenarios over %d bursts (contiguous from 1: %v) for %d components, expected every burst 1..%d for %d components", deepTot.Executions, deepBursts, deepContig, len(deepPer), deepMax, len(deepGroups))
+	}
+	deepComponents := map[string]interface{}{}
+	for name, p := range deepPer {
+		sort.Ints(p.Bursts)
+		nb, contig := contiguous(p.Bursts)
+		if deepMax > 0 && (nb != deepMax || !contig) {
+			ev.Fatal("deep backlog family: %s was run for %d bursts, expected every burst 1..%d", name, nb, deepMax)
+		}
+		deepComponents[name] = map[string]interface{}{
+			"bursts_each_run": nb, "executions": p.Executions, "plain_push_then_drain": p.Plain, "split_push_take_push_drain": p.Split,
+			"complete_executions": p.Complete, "violating_executions": p.Failed, "cut_at_step_bound_or_deadline": p.Aborted,
+			"scheduler_steps_executed": p.Steps, "longest_execution_steps": p.MaxSteps, "max_items_held": p.MaxHeld,
+			"max_items_delivered_in_one_execution": p.MaxTotal, "every_burst_run": p.Exhaustive, "cpu_ms": p.WallMs,
+		}
+	}
 	var table []map[string]interface{}
 	for _, label := range rowOrder {
 		r := rows[label]
@@ -744,6 +838,7 @@ func Run(args []string) {
 	for i := 0; i < len(terms) && i < 3; i++ {
 		samples = append(samples, "terminal observation: "+terms[i*(len(terms)/3+1)%len(terms)])
 	}
+	samples = append(samples, deepTot.Samples...)
 	if len(samples) == 0 {
 		samples = []string{"(no complete execution)"}
 	}
@@ -753,6 +848,7 @@ func Run(args []string) {
 		"channel operations are the only scheduling points: code between two channel operations of a thread touches only thread-local data (overflow list is worker-local, observations are consumer-local)",
 		"the canonical state covers the worker's locals through its pending operation (site and offered values) and the overflow list; a mutated worker with further hidden locals could be pruned too early",
 		"termination claims are about maximal executions of the finite system (every thread that can move eventually moves)",
+		fmt.Sprintf("deep backlog family (deep_backlog_* counters): an exhaustive enumeration over the burst size (every N in 1..%d, plain push-N-then-drain plus the splits (take N/2, push N/2), (take N-1, push N), (take ceil(N/4), push N)) and NOT over interleavings: each scenario is executed once, under the canonical non-preempting schedule (the thread that moved last goes on while it has a pending operation, else the lowest-numbered runnable thread; first ready select case), with the consumer absent while a burst is pushed and the producer absent while the backlog is drained; a defect that needs a backlog of more than %d items, or a deep backlog together with a particular interleaving of producer and consumer, is outside both families", deepMax, deepTot.MaxHeld),
 	}
 	run.Finish(ev.Coverage{
 		"states":                         tot.States,
@@ -772,12 +868,30 @@ func Run(args []string) {
 		"components":                     components,
 		"handler_bounds":                 fmt.Sprintf("per client (neutrino, btcd): bursts 1..%d with scenarios a, b, c, r (a plus two concurrent BlockStamp() readers), d with K=0..burst-1; scenario b (no consumer until the producer finished, then drain, then Stop) for EVERY burst 1..%d; a for bursts %v; c for bursts %v; d with K in {0, burst/2} for bursts %v", hSmall, hMax, longA, longC, longD),
 		"bounds":                         fmt.Sprintf("queue.go: buffer sizes 0..%d x burst lengths 1..%d x scenarios {a: producer||consumer||worker then Stop, b: no consumer until the producer finished, then late consumer, then Stop, c: a with Stop() at any point, d: c with a consumer that stops receiving for good after K items, K=0..burst-1}; unbounded preemptions, no depth bound", maxB, maxN),
-		"exhaustive":                     tot.Exhaustive,
-		"samples":                        samples,
-		"evaluations":                    tot.Executions,
-		"distinct_nontrivial":            tot.NontrivialStates,
-		"executions_with_overflow":       tot.NontrivialExecs,
-		"max_overflow_len":               tot.MaxOverflow,
-		"rule":                           "every reachable canonical state (thread pcs/pending operations, channel buffers and wait queues, closed flags, overflow list, observations) of every scenario; non-trivial = distinct states in which the overflow list is non-empty (queue.go) / in which the handler holds at least two undelivered notifications (handler loops)",
+		"exhaustive":                     tot.Exhaustive && deepTot.Exhaustive,
+		"exhaustive_interleavings_small_scenarios": tot.Exhaustive,
+		"deep_backlog_every_burst_run":             deepTot.Exhaustive,
+		"deep_backlog_executions":                  deepTot.Executions,
+		"deep_backlog_bursts_each_run":             deepBursts,
+		"deep_backlog_plain_executions":            deepTot.Plain,
+		"deep_backlog_split_executions":            deepTot.Split,
+		"deep_backlog_complete_executions":         deepTot.Complete,
+		"deep_backlog_violating_executions":        deepTot.Failed,
+		"deep_backlog_cut_executions":              deepTot.Aborted,
+		"deep_backlog_steps_executed":              deepTot.Steps,
+		"deep_backlog_longest_execution_steps":     deepTot.MaxSteps,
+		"deep_backlog_multi_choice_decisions":      deepTot.MultiChoice,
+		"deep_backlog_executions_with_backlog":     deepTot.Nontrivial,
+		"deep_backlog_max_items":                   deepTot.MaxHeld,
+		"deep_backlog_max_overflow_len":            deepTot.MaxOverflow,
+		"deep_backlog_max_items_delivered":         deepTot.MaxTotal,
+		"deep_backlog_components":                  deepComponents,
+		"deep_backlog_bounds":                      fmt.Sprintf("per component (queue.go with buffer sizes %v, neutrino handler, btcd handler): EVERY burst N in 1..%d: push N with no consumer, drain, Stop; and for N >= 2 the splits (K,M) in {(N/2,N/2), (N-1,N), (ceil(N/4),N)}: push N, consumer takes K and stalls, push M more, drain all N+M, Stop; ONE execution each under the canonical non-preempting schedule (enumeration over N, not over interleavings)", deepBufs, deepMax),
+		"samples":                                  samples,
+		"evaluations":                              tot.Executions,
+		"distinct_nontrivial":                      tot.NontrivialStates,
+		"executions_with_overflow":                 tot.NontrivialExecs,
+		"max_overflow_len":                         tot.MaxOverflow,
+		"rule":                                     "two families. (1) deep backlog (deep_backlog_* counters, not included in states/transitions/executions/evaluations/distinct_nontrivial): one canonical-schedule execution per (component, burst N, split), for every N up to the bound -- exhaustive over N, not over interleavings; non-trivial = executions in which at least two items were held undelivered. (2) exploration: every reachable canonical state (thread pcs/pending operations, channel buffers and wait queues, closed flags, overflow list, observations) of every scenario; non-trivial = distinct states in which the overflow list is non-empty (queue.go) / in which the handler holds at least two undelivered notifications (handler loops)",
 	})
 }
